@@ -211,6 +211,20 @@ def programs(rng, tier):
         ax = random_bdd(rng, nv, max_support=min(nv, 6))
         pat = rng.choice([("a", "b", "nb"), ("a", "nb", "b"), ("b", "nb", "a"), ("nb", "b", "a"), ("b", "a", "nb"), ("nb", "a", "b")])
         progs.append([["a", "id", bdd_sx(ax)], ["b", "id", bdd_sx(bx)], ["nb", "not", "$b"], ["r", "ite"] + ["$" + x for x in pat]])
+    # ternary_op over operands that store IDENTICAL nodes at identical indices but denote different functions (f, not f and f
+    # with its terminals swapped below one node), with random tables (one in three has equal values on FFF and TTT)
+    for _ in range(60 if tier == "quick" else 1500):
+        nv = rng.choice([3, 4, 5, 6])
+        f = random_bdd(rng, nv, max_support=min(nv, 5))
+        if len(f) < 4:
+            continue
+        conn3 = [rng.random() < 0.5 for _ in range(8)]
+        if rng.random() < 0.4:
+            conn3[7] = conn3[0]
+        tab = partial_table3(rng, tuple(conn3))
+        pats = rng.choice([("f", "nf", "f"), ("f", "nf", "nf"), ("nf", "f", "f"), ("f", "f", "nf"), ("f", "nf", "g"), ("g", "f", "nf")])
+        progs.append([["f", "id", bdd_sx(f)], ["nf", "not", "$f"], ["g", "id", bdd_sx(random_bdd(rng, nv))],
+                      ["r", "tern", tab] + ["$" + x for x in pats]])
     # an operation AFTER a user closure panicked inside binary_op on the same thread (caught): it must be unaffected
     for _ in range(60 if tier == "quick" else 2000):
         nv = rng.choice([3, 4, 5, 6])
